@@ -32,9 +32,9 @@ class Layout(object):
             cls, meth = self.name.split(".")
             return render.render_method(desc, cls=cls, name=meth, siblings=self.siblings,
                                         inline_types=style.get("inline_types", True), kwonly=style.get("kwonly", False),
-                                        body=style.get("body"))
+                                        body=style.get("body"), extra_documented=style.get("stale", ()))
         return render.render_function(desc, self.name, inline_types=style.get("inline_types", True),
-                                      kwonly=style.get("kwonly", False), body=style.get("body"))
+                                      kwonly=style.get("kwonly", False), body=style.get("body"), extra_documented=style.get("stale", ()))
 
     def text(self, desc, style, state="present"):
         if state == "missing":
@@ -88,7 +88,9 @@ def gen_layout(ch, label, kind, name, desc, rich):
 def gen_style(ch, label):
     body = None
     if ch.chance(label + ".body", 0.3):
-        body = ["total = 0", "print('working')"]
+        # statements that are not part of the interface, annotated local assignments among them
+        body = ch.choice(label + ".bodyv", [["total = 0", "print('working')"], ["loss: float = 0.0", "seen: list = []", "print(loss, seen)"],
+                                            ["count: int", "count = 1", "print(count)"]])
     return {"inline_types": ch.chance(label + ".inline", 0.7), "kwonly": ch.chance(label + ".kwonly", 0.2),
             "default_doc": ch.chance(label + ".ddoc", 0.3), "body": body}
 
@@ -208,6 +210,16 @@ def gen_scenario(seed, focus="C20"):
         "bufsize": ch.weighted("bufsize", [(8192, 5), (0, 1), (512, 1), (10 ** 9, 1)]),
         "path_style": ch.weighted("path_style", [("abs", 6), ("tilde", 1), ("relative", 1), ("symlink_dir", 1), ("symlink_file", 1)]),
     }
+    # "every command-line invocation is a new interpreter": in some C10 histories each sync runs in a freshly started
+    # interpreter whose string-hash seed the scheduler picks (everything else forks from one interpreter, seed 0).
+    # Those projects also carry docstrings that mention names the signature no longer has - the classic input on which
+    # an order taken from a set shows.
+    procs = focus == "C10" and ch.chance("processes", 0.05)
+    if procs:
+        knobs["processes"] = "spawn"
+        for rel in proj.by_kind["function"]:
+            if ch.chance("stale." + rel, 0.7):
+                proj.files[rel]["style"]["stale"] = ch.sample("stalenames." + rel, ["legacy_mode", "verbose", "cache_dir", "retries", "timeout_s"], ch.int("nstale." + rel, 2, 4))
     truth0 = ch.choice("truth0", KINDS)
     files, states = initial_states(proj, ch, truth0, focus)
     ops = []
@@ -299,6 +311,9 @@ def gen_scenario(seed, focus="C20"):
             ops += pre
         if op["op"] != "cli" and ch.chance(lab + ".fault", fault_rate):
             op["fault"] = gen_fault(ch, lab + ".f", enabled)
+        if procs and op["op"] == "sync":
+            op["via"] = "cli"
+            op["hashseed"] = ch.int(lab + ".hashseed", 1, 2 ** 31 - 1)
         ops.append(op)
         if op["op"] == "sync":
             for k, t in op["targets"].items():
